@@ -308,7 +308,12 @@ fn struct_init_block<'a>(input: &'a Struct, ctx: &ImplContext) -> TokenStream {
             fields.into_iter()
         }));
 
-    fields.extend(input.attrs.ghosts_attrs.iter()
+    // only the #[ghosts(...)] instruction in effect for this counterpart and kind can name nested structs of it
+    let ghosts_in_effect = input.attrs.ghosts_attrs.iter()
+        .find(|x| x.applicable_to[&ctx.kind] && x.attr.container_ty.as_ref() == Some(&ctx.struct_attr.ty))
+        .or_else(|| input.attrs.ghosts_attrs.iter().find(|x| x.applicable_to[&ctx.kind] && x.attr.container_ty.is_none()));
+
+    fields.extend(ghosts_in_effect.into_iter()
         .flat_map(|x| &x.attr.ghost_data)
         .filter_map(|x| {
             let res = make_tuple(x.get_child_path_str(None).into(), FieldData::GhostData(x));
